@@ -68,6 +68,8 @@ type anOp struct {
 	Shape string   `json:"shape"`
 	Tx    int      `json:"tx"`
 	Route string   `json:"route"`
+	Chain int      `json:"chain"` // req: chain id named by the re-observation request (0 = Alephium's, 255)
+	Len   int      `json:"len"`   // req: length of the tx hash in the request (0 = 32)
 	Ms    int      `json:"ms"` // hold: delay the next request on Route by this many milliseconds before it is served
 }
 
@@ -371,8 +373,17 @@ func (nd *anNode) apply(op anOp) {
 		h := anHash("tx|", nd.sc.ID, "|", op.Tx)
 		a["tx"] = op.Tx
 		nd.reqTxs = append(nd.reqTxs, op.Tx)
+		chain, hl := uint32(vaa.ChainIDAlephium), 32
+		if op.Chain != 0 {
+			chain = uint32(op.Chain)
+		}
+		if op.Len != 0 {
+			hl = op.Len
+		}
+		hash := append(append([]byte{}, h[:]...), 1, 2, 3, 4)[:hl]
+		a["chain"], a["len"] = int(chain), hl
 		select {
-		case nd.obsvC <- &gossipv1.ObservationRequest{ChainId: uint32(vaa.ChainIDAlephium), TxHash: h[:]}:
+		case nd.obsvC <- &gossipv1.ObservationRequest{ChainId: chain, TxHash: hash}:
 		default:
 			a["dropped"] = true
 		}
